@@ -113,6 +113,78 @@ type upChunk struct {
 	acked  bool
 }
 
+// agentStuckOutput is a further output whose forwarder cannot be interrupted: the datadog client's Close does nothing, so a
+// request to an upstream that accepts and never answers ends only with httpTimeout
+const agentStuckOutput = `  - name: stuck
+    buffer:
+        type: hybridBuffer
+        rootPath: %s
+        maxBufSize: 1GB
+    output:
+        type: datadog
+        serialization:
+            hiddenFields: [extradata]
+        upstream:
+            address: http://%s/api/v2/logs
+            httpTimeout: 1h
+`
+
+// blackHole accepts connections, reads what is sent and never answers
+type blackHole struct {
+	mu    sync.Mutex
+	lsnr  net.Listener
+	conns []net.Conn
+	bytes int64
+}
+
+func newBlackHole() *blackHole {
+	l, err := net.Listen("tcp", "127.0.0.1:0")
+	if err != nil {
+		panic(err)
+	}
+	b := &blackHole{lsnr: l}
+	go func() {
+		for {
+			c, err := l.Accept()
+			if err != nil {
+				return
+			}
+			b.mu.Lock()
+			b.conns = append(b.conns, c)
+			b.mu.Unlock()
+			go func() {
+				buf := make([]byte, 4096)
+				for {
+					n, err := c.Read(buf)
+					b.mu.Lock()
+					b.bytes += int64(n)
+					b.mu.Unlock()
+					if err != nil {
+						return
+					}
+				}
+			}()
+		}
+	}()
+	return b
+}
+
+func (b *blackHole) received() int64 {
+	b.mu.Lock()
+	defer b.mu.Unlock()
+	return b.bytes
+}
+
+// release drops every connection: the requests in flight fail and their senders can end
+func (b *blackHole) release() {
+	b.lsnr.Close()
+	b.mu.Lock()
+	defer b.mu.Unlock()
+	for _, c := range b.conns {
+		c.Close()
+	}
+}
+
 type upstream struct {
 	mu       sync.Mutex
 	lsnr     net.Listener
@@ -257,6 +329,7 @@ type agentScript struct {
 	nostamp    bool // some records carry no "[stamp] " prefix: their stamp field must stay empty (C12)
 	twoOut     bool // a second output with its own upstream, which never ACKs before the last generation
 	quietLast  bool // the last generation receives no new records
+	stuckOut   bool // a further output (datadog) whose upstream accepts requests and never answers: its forwarder ignores the stop
 }
 
 func (s agentScript) op() Op {
@@ -269,7 +342,7 @@ func (s agentScript) op() Op {
 		up = "-"
 	}
 	return Op{Name: "agent script", Strs: []string{s.mode, s.quota, up, strings.Join(stop, ",")},
-		Ints: []int64{int64(s.maxDurMs), int64(s.gens), int64(s.conns), int64(s.recs), int64(s.apps), s.seed, b2i(s.hostile), b2i(s.earlyDrops), b2i(s.chatty), b2i(s.linger), b2i(s.twoOut), b2i(s.quietLast), b2i(s.nostamp)}}
+		Ints: []int64{int64(s.maxDurMs), int64(s.gens), int64(s.conns), int64(s.recs), int64(s.apps), s.seed, b2i(s.hostile), b2i(s.earlyDrops), b2i(s.chatty), b2i(s.linger), b2i(s.twoOut), b2i(s.quietLast), b2i(s.nostamp), b2i(s.stuckOut)}}
 }
 
 func b2i(b bool) int64 {
@@ -282,7 +355,7 @@ func b2i(b bool) int64 {
 func agentScriptOf(o Op) agentScript {
 	s := agentScript{mode: o.Strs[0], quota: o.Strs[1], maxDurMs: int(o.Ints[0]), gens: int(o.Ints[1]), conns: int(o.Ints[2]),
 		recs: int(o.Ints[3]), apps: int(o.Ints[4]), seed: o.Ints[5], hostile: len(o.Ints) > 6 && o.Ints[6] != 0, earlyDrops: len(o.Ints) > 7 && o.Ints[7] != 0, chatty: len(o.Ints) > 8 && o.Ints[8] != 0, linger: len(o.Ints) > 9 && o.Ints[9] != 0,
-		twoOut: len(o.Ints) > 10 && o.Ints[10] != 0, quietLast: len(o.Ints) > 11 && o.Ints[11] != 0, nostamp: len(o.Ints) > 12 && o.Ints[12] != 0}
+		twoOut: len(o.Ints) > 10 && o.Ints[10] != 0, quietLast: len(o.Ints) > 11 && o.Ints[11] != 0, nostamp: len(o.Ints) > 12 && o.Ints[12] != 0, stuckOut: len(o.Ints) > 13 && o.Ints[13] != 0}
 	if o.Strs[2] != "-" {
 		s.upScript = strings.Split(o.Strs[2], ",")
 	}
@@ -356,6 +429,12 @@ func runAgent(sc agentScript) (obs agentObs) {
 		defer up2.close()
 		second = fmt.Sprintf(agentSecondOutput, filepath.Join(root, "buf2"), up2.addr())
 		obs.twoOut = true
+	}
+	var hole *blackHole
+	if sc.stuckOut {
+		hole = newBlackHole()
+		defer hole.release()
+		second += fmt.Sprintf(agentStuckOutput, filepath.Join(root, "bufstuck"), hole.lsnr.Addr().String())
 	}
 	os.WriteFile(confPath, []byte(fmt.Sprintf(agentConfTemplate, bufDir, sc.quota, sc.mode, up.addr(), maxDur, second)), 0o644)
 
@@ -546,6 +625,12 @@ func runAgent(sc agentScript) (obs agentObs) {
 			} else if g < len(sc.stopMs) {
 				time.Sleep(time.Duration(sc.stopMs[g]) * time.Millisecond)
 			}
+			if hole != nil {
+				// the stop has to come while a request to the silent upstream is in flight
+				for deadline := time.Now().Add(3 * time.Second); hole.received() == 0 && time.Now().Before(deadline); {
+					time.Sleep(5 * time.Millisecond)
+				}
+			}
 			t0 := time.Now()
 			stopped := make(chan struct{})
 			go func() {
@@ -560,6 +645,13 @@ func runAgent(sc agentScript) (obs agentObs) {
 				obs.stopMs = append(obs.stopMs, 999999) // never returned; the agent of this generation is abandoned
 				obs.panics = append(obs.panics, fmt.Sprintf("generation %d: the stop did not return within 12 s", g))
 				agentHung = true
+			}
+			if hole != nil && os.Getenv("VERIF_DEBUG") != "" {
+				fmt.Fprintf(os.Stderr, "stuck-output: stop took %v ms, silent upstream had received %d bytes\n", obs.stopMs, hole.received())
+			}
+			if hole != nil && !agentHung {
+				hole.release()
+				time.Sleep(300 * time.Millisecond)
 			}
 			close(release)
 			lingering.Wait()
@@ -1003,6 +1095,9 @@ func oracleC19(obs agentObs) string {
 func (a *agentComp) Class(c Case, impl []string) string {
 	sc := agentScriptOf(c.Ops[0])
 	cl := fmt.Sprintf("gens%d", sc.gens)
+	if sc.stuckOut {
+		cl += "+stuck-output"
+	}
 	if len(sc.upScript) > 0 {
 		kinds := map[string]bool{}
 		for _, b := range sc.upScript {
@@ -1024,6 +1119,9 @@ func (a *agentComp) Generate(rng *rand.Rand, n int, emit func(Case)) {
 	mk(agentScript{mode: "Forward", maxDurMs: 0, quota: "1GB", gens: 2, conns: 2, recs: 40, apps: 2, upScript: []string{"noack"}, stopMs: []int{30}, seed: 2}, "corpus")
 	mk(agentScript{mode: "PackedForward", maxDurMs: 30, quota: "1GB", gens: 2, conns: 3, recs: 60, apps: 3, upScript: []string{"close", "reset:1", "late:40"}, stopMs: []int{60}, seed: 3}, "corpus")
 	mk(agentScript{mode: "CompressedPackedForward", maxDurMs: 0, quota: "1GB", gens: 3, conns: 2, recs: 50, apps: 2, upScript: []string{"wrong:1", "noack", "close", "close"}, stopMs: []int{20, 50}, seed: 4}, "corpus")
+	if a.prop == "c18" {
+		mk(agentScript{mode: "Forward", maxDurMs: 0, quota: "1GB", gens: 1, conns: 2, recs: 30, apps: 2, stopMs: []int{0}, seed: 5, stuckOut: true}, "corpus")
+	}
 	for i := 0; i < n; i++ {
 		sc := agentScript{mode: []string{"Forward", "PackedForward", "CompressedPackedForward"}[rng.Intn(3)], quota: "1GB",
 			gens: 1 + rng.Intn(3), conns: 1 + rng.Intn(3), recs: 10 + rng.Intn(80), apps: 1 + rng.Intn(3), seed: rng.Int63()}
@@ -1066,6 +1164,12 @@ func (a *agentComp) Generate(rng *rand.Rand, n int, emit func(Case)) {
 		}
 		if a.prop == "c18" && i%2 == 0 {
 			sc.chatty = true
+		}
+		if a.prop == "c18" && i%6 == 1 {
+			// one output whose forwarder cannot be interrupted (its upstream accepts the request and never answers)
+			sc.stuckOut = true
+			sc.gens = 1
+			sc.stopMs = []int{0}
 		}
 		if a.prop == "c07" {
 			sc.hostile = true
